@@ -21,3 +21,15 @@ Definition oval_bytes (v : oval) : list N := match v with OVBytes l => l | _ => 
 Definition oval_err (v : oval) : goerr := match v with OVErr e => e | _ => None end.
 Definition oval_fst (v : oval) : oval := match v with OVPair a _ => a | _ => OVUnit end.
 Definition oval_snd (v : oval) : oval := match v with OVPair _ b => b | _ => OVUnit end.
+
+(* a field of type *bytes.Buffer: nil, or the content of the buffer *)
+Definition buf_isnil (b : option (list N)) : bool := match b with None => true | Some _ => false end.
+Definition buf_bytes (b : option (list N)) : list N := match b with Some l => l | None => [] end.
+
+(* bytes.IndexByte: the index of the first occurrence, -1 if there is none *)
+Fixpoint index_byte (p : list N) (c : N) (i : Z) : Z :=
+  match p with
+  | [] => -1
+  | b :: t => if (b =? c)%N then i else index_byte t c (i + 1)
+  end.
+Definition bytes_IndexByte (p : list N) (c : N) : Z := index_byte p c 0.
